@@ -27,14 +27,19 @@ def run(prop, tier, seed, replay=None):
         "termination of Integer::nonzerorandom depends on GMP's generator eventually returning a non-zero value (probability 1): modelled with fuel, "
         "proved only in the form `whatever is returned is non-zero and in range`; the GivRandom-based loops are proved to terminate "
         "(the multiplier is a primitive root modulo the prime 2^31-1, Lemmas/RandomOrbit.lean); the correspondence runs every loop under a watchdog",
-        "ring types other than Modular<integral>, GFqDom, Modular<ruint<K>> and Montgomery<ruint<K>> (i.e. floating, balanced, Montgomery<int32_t>, Modular<Integer>, Modular<rint<K>>) are checked implementation-vs-specification only "
-        "(their init is the subject of C04); a zero seed (clock-seeded generator) is outside the property",
+        "ModularExtended<double>, Modular<Integer>, Modular<rint<K>> and the Extension::RandIter class (floating-point scaling of the draw) are checked "
+        "implementation-vs-specification only (their init is the subject of C04); Modular<float|double>, ModularBalanced<int32|int64|float|double>, "
+        "Montgomery<int32_t>, ZRing<intN|uintN|double>, GF2, Extension<Modular<int32_t>>::random/nonzerorandom, QField<Rational>::random/nonzerorandom (argument evaluation order of "
+        "Rational(Integer::random(s), Integer::nonzerorandom(s)) as compiled by g++: right to left) and Poly1Dom::random over GFqDom<int32_t>, Modular<double>, ModularBalanced<int32_t>, Montgomery<int32_t> are modelled exactly "
+        "(Model/RandomRings.lean: the conversion of a residue below maxCardinality() to float/double is taken to be exact; theorems Props/C20Rings.lean); "
+        "a zero seed (clock-seeded generator) is outside the property",
         "that the CODE has no other input than the seed, the construction parameters and the calls is checked by drawing every sequence twice "
         "(pre-filled vs other destinations, original vs copied iterator); for the MODEL it is a theorem (…_dest_indep, …_run_dest_indep, …_append, rii_run_indep)",
         "a zero seed makes GivRandom read the clock (the only documented non-determinism): modelled as an arbitrary stream of int64_t readings, "
         "proved to give a valid state for every reading; not exercised by the correspondence",
     ]
-    L = flow.lean_stage(V, ["GivaroModel.Props.C20"], "GivaroModel/Props/C20.lean")
+    L = flow.lean_stage(V, ["GivaroModel.Props.C20", "GivaroModel.Props.C20Rings"], "GivaroModel/Props/C20.lean",
+                        extra_theorem_files=("GivaroModel/Props/C20Rings.lean",))
     common.shadow_inc()      # bring the shadow include tree up to date once, before the per-configuration builds run concurrently
     bins = flow.build_harnesses("h_random", configs=("S", "R") if tier == "thorough" else ("S",), extra=("-ldl",))
     if replay:
@@ -57,7 +62,9 @@ def run(prop, tier, seed, replay=None):
                             "{1,2,..,2^k-1,2^k,2^k+1 for k in 31..3000, limb-structured multi-limb} and bit sizes {1,2,31..33,63..65,127..129,..,1000,random} "
                             "x raw-draw patterns (every sequence over {real, minimum, maximum} of length <= 2 in quick, <= 3 plus selected longer ones in thorough), every destination pre-filled from {0,±1,2^64,-(2^130+12345),2^300+2^64+3,-2^63,2^1000-1}; "
                             "every ring type x modulus grid (min/maxCardinality() as reported by the running code and the values next to them) x 8 draw functions x sizes "
-                            "{0,1,2,3,p/2,p-1,p,p+1,max}; polynomial degrees 0..100 (1000 thorough); RecInt K = 6..10. distinct = distinct input lines; "
+                            "{0,1,2,3,p/2,p-1,p,p+1,max}; polynomial degrees 0..100 (1000 thorough) over Modular<int32_t>, GFqDom<int32_t>, Modular<double>, ModularBalanced<int32_t>, Montgomery<int32_t>; QField<Rational> 4 forms x sizes {1,2,3,8,31..33,63..65,128,200} / bounds incl. multi-limb x 14 raw-draw substitution patterns; "
+                            "three-argument RandIter constructors and copy assignment between iterators of different sampling sizes (fn 8, 9); GF2 x 7 draw functions; ZRing<int8..uint64,double> x {RandIter, GeneralRingRandIter sizes 0,1,2,3,100,127,255,..,2^31-1,2^40,2^63-1, nonzero iterator, random, nonzerorandom}; "
+                            "Extension<Modular<int32_t>>(p in {2,3,5,101,32749,46337}, e in {1,2,3,5,8} (13, 24 thorough)) x 6 random forms x sizes {0,1,2,e-1,e,e+1,1000,-1,-7,2^63-1} / every b.size() <= e + RandIter sizes {0,1,2,p-1,p,p+1,1000003}; RecInt K = 6..10. distinct = distinct input lines; "
                             "non-trivial = not all arguments in {0,1}",
                        extra={"cases_by_kind": kinds})
     V.finish()
@@ -67,4 +74,6 @@ def key_of(line):
     t = line.split(" ")
     if t[0] in ("ring", "poly") and len(t) > 5:
         return "%s_T%s_fn%s" % (t[0], t[1], t[5])
+    if t[0] == "ext" and len(t) > 4:
+        return "ext_k%s" % t[4]
     return t[0]
